@@ -41,7 +41,7 @@ def budget(tier):
 # ------------------------------------------------------------------------------------------
 
 
-def tag_graph(g, untag=(), no_scale=1, bo_scale=1):
+def tag_graph(g, untag=(), no_scale=1, bo_scale=1, plus=False):
     """extra S tags BO/NO from the chain oracle; nodes in `untag` get -1/-1. Scaling keeps the order but gives
     values with different digit counts (9 vs 10 vs 100)."""
     extra = {}
@@ -55,7 +55,8 @@ def tag_graph(g, untag=(), no_scale=1, bo_scale=1):
             m = {n: (bo, i + 1) for i, n in enumerate(sorted(c["nodes"]))}
             bo += 1
         for n, (b, o) in m.items():
-            extra[n] = ["BO:i:%d" % (b * bo_scale), "NO:i:%d" % (o * no_scale)]
+            # an integer may be written with an explicit sign ([-+]?[0-9]+)
+            extra[n] = ["BO:i:%s%d" % ("+" if plus and b % 2 == 0 else "", b * bo_scale), "NO:i:%s%d" % ("+" if plus and o % 2 == 1 else "", o * no_scale)]
     for n in untag:
         extra[n] = ["BO:i:-1", "NO:i:-1"]
     return extra
@@ -66,7 +67,8 @@ def strategy_(draw, tier):
     g = draw(gen_graph.rgfa(max_chroms=2, max_elements=4))
     ids = list(g["nodes"])
     untag = draw(st.lists(st.sampled_from(ids), max_size=max(1, len(ids) // 4), unique=True))
-    extra = tag_graph(g, untag, no_scale=draw(st.sampled_from([1, 1, 4, 7])), bo_scale=draw(st.sampled_from([1, 1, 3, 25])))
+    extra = tag_graph(g, untag, no_scale=draw(st.sampled_from([1, 1, 4, 7])), bo_scale=draw(st.sampled_from([1, 1, 3, 25])),
+                      plus=draw(st.integers(0, 5)) == 0)
     if draw(st.integers(0, 4)) == 0:
         # scaffold nodes (NO = 0) need not be rank 0: a chromosome whose backbone is a haplotype contig
         c = draw(st.sampled_from(g["chroms"]))
